@@ -22,25 +22,31 @@ LEVEL = "exploration"
 EXHAUSTIVE = False
 CRASH_IS_VIOLATION = False
 RULE = ("random histories of 2-30 steps over {call, acked/unacked publish, subscribe, unsubscribe, register, unregister, "
-        "un-serializable call/publish} x payload shapes x option objects, router replies {success, ERROR, progressive RESULT} "
-        "to a RANDOM outstanding request, EVENTs/INVOCATIONs interleaved, ending drained / with requests outstanding / with a "
-        "reply matching no pending request; plus enumerated families: all k! reply orders of k outstanding requests of mixed "
-        "kinds (k<=5 quick, 6 thorough), every (violation class x reply type x variant), every option of every option class, "
-        "progressive-result shapes x details, request ids across the 2^53 boundary, send failures x serializer. A case is "
-        "non-trivial when at least one router reply/unmatched reply was delivered and compared; distinct = hash(framework, "
-        "transport config, step list).")
+        "un-serializable call/publish, oversize (RawSocket limit) call/publish/subscribe/register} x payload shapes x option objects, "
+        "router replies {success, ERROR, progressive RESULT} to a RANDOM outstanding request (some delivered in two reads), "
+        "EVENTs/INVOCATIONs interleaved, further requests issued from INSIDE completion callbacks / on_progress / event handlers / endpoints, "
+        "ending drained / with requests outstanding / with a reply matching no pending request; plus enumerated families: all k! reply "
+        "orders of k outstanding requests of mixed kinds (k<=6; quick: 2 mixes at k=6, thorough: 6), every (violation class x reply type x "
+        "variant), every option of every option class, progressive-result shapes x details, request ids across the 2^53 boundary, send "
+        "failures x failure class x serializer, every (callback site x nested request kind). A case is non-trivial when at least one "
+        "router reply/unmatched reply was delivered and compared; distinct = hash(framework, transport config, step list).")
 ASSUMPTIONS = [
     "the scripted router only sends messages a conforming router could send, except for the final 'violate' step",
     "oracle tables (message layouts, option names/defaults, reply<->request type pairing) are written from the WAMP spec in vf/c04_model.py; "
-    "an option equal to its spec default may be present or absent on the wire",
+    "an option equal to its spec default may be present or absent on the wire; transaction_hash / forward_for / caller* travel under their own name unchanged "
+    "(as documented by the option classes)",
     "call() return value per the ISession.call docstring: single positional -> that value; several/keyword results or CallOptions(details=True) -> CallResult; nothing -> None",
     "after a send() failure only 'ids stay fresh and within 1..2^53' is asserted for the id counter",
+    "send() failure: for call and (un)acknowledged publish the API must raise or return a failed future, put nothing on the wire and keep no pending record; "
+    "for subscribe/register (only the oversize class can fail) a retained internal record is OBSERVED (send_failure_record_retained) but not a violation - "
+    "nothing was returned to the application and the statement is silent about it; such a record must never be resolved with a value",
     "a reply matching no pending request must fail the transport (WebSocket: close code 1002 when failByDrop=False, otherwise a drop; RawSocket: abort) "
     "and must not change any request's outcome; what happens to still-pending requests afterwards is only checked for 'at most once, never a value'",
     "pending-table sizes (_call_reqs ...) and txaio.resolve/reject attempt counts are hooks for leak / double-completion detection",
-    "the 2^53 boundary is reached by poking IdGenerator._next after the join",
+    "the 2^53 boundary is reached by presetting IdGenerator._next after the join",
     "not generated (grey zones): float timeouts, several handlers on one subscription id, progressive results for calls without on_progress, "
-    "events for a subscription whose unsubscribe is in flight, reserved kwarg names of CallResult/ApplicationError, payload encryption, call cancellation",
+    "events for a subscription whose unsubscribe is in flight, reserved kwarg names of CallResult/ApplicationError, payload encryption, call cancellation, "
+    "correlation_* options (never serialized), forward_for entries with authid None (accepted by CallOptions, refused by PublishOptions)",
 ]
 DECIDING = {
     "wire_requests_compared": 500, "completions_compared": 500, "ids_checked": 500, "options_compared": 200,
@@ -54,10 +60,13 @@ DECIDING = {
     "progressive_delivered": 50, "violation_unknown_id": 20, "violation_wrong_type": 20, "violation_duplicate": 20,
     "reply_permutations": 100, "send_failures_injected": 30, "send_failure_tables_checked": 30,
     "table_sizes_compared": 1000, "quiescence_checks": 100, "events_delivered": 20, "invocations_delivered": 20,
-    "attempt_counts_checked": 500,
+    "attempt_counts_checked": 500, "ids_at_2^53": 10, "ids_wrapped_to_1": 10, "send_failures_unserializable": 30,
+    "send_failures_oversize": 10, "replies_split_across_reads": 50, "nested_requests_verified": 100,
 }
 
 SERIALIZERS = ["json", "cbor", "msgpack", "ubjson"]
+RS_MAX_EXP = 12
+FORWARD_FOR = [{"session": 4711, "authid": "rlink-ä", "authrole": "rlink"}, {"session": 2 ** 53, "authid": "r2", "authrole": "router"}]
 VALUES = [0, 1, -1, 2 ** 53, -(2 ** 31), 0.5, -2.25, True, False, None, "", "ünï©ode-✓", [1, [2, [3]]],
           {"k": {"n": None}}, "x" * 200]
 ERR_URIS = ["com.c04.error.custom", "wamp.error.no_such_procedure", "wamp.error.not_authorized", "wamp.error.invalid_argument",
@@ -90,7 +99,10 @@ def cfg_random(rng):
     if r < 0.7:
         return {"transport": "websocket", "serializer": rng.choice(["json", "json", "cbor", "cbor", "msgpack", "ubjson"]),
                 "fail_by_drop": rng.random() < 0.5}
-    return {"transport": "rawsocket", "serializer": rng.choice(SERIALIZERS)}
+    c = {"transport": "rawsocket", "serializer": rng.choice(SERIALIZERS)}
+    if rng.random() < 0.5:
+        c["rs_max_exp"] = RS_MAX_EXP        # the router announces a 4 KiB limit: oversize requests make send() raise
+    return c
 
 
 def cfg_rot(i):
@@ -172,6 +184,16 @@ def gen_call_opts(rng):
         o["details"] = rng.choice([True, True, False])
     if rng.random() < 0.3:
         o["timeout"] = rng.choice([1, 30, 10000, 2 ** 31])
+    if rng.random() < 0.12:
+        o["transaction_hash"] = rng.choice(["0xdeadbeef", "tx-ü-1", ""])
+    if rng.random() < 0.08:
+        o["forward_for"] = FORWARD_FOR[:rng.randint(1, 2)]
+    if rng.random() < 0.08:
+        o["caller"] = rng.choice([1, 2 ** 53, 4711])
+        if rng.random() < 0.7:
+            o["caller_authid"] = rng.choice(["alice", "böb"])
+        if rng.random() < 0.7:
+            o["caller_authrole"] = rng.choice(["user", "admin"])
     return o
 
 
@@ -201,6 +223,10 @@ def gen_publish_opts(rng, ack):
         o["eligible_authrole"] = _one_or_list(rng, lambda: rng.choice(["user", "backend"]))
     if rng.random() < 0.25:
         o["retain"] = rng.choice([True, False])
+    if rng.random() < 0.1:
+        o["transaction_hash"] = rng.choice(["0xfeed", "tx-ü-2"])
+    if rng.random() < 0.07:
+        o["forward_for"] = FORWARD_FOR[:rng.randint(1, 2)]
     if not o and rng.random() < 0.7:
         return None
     return o
@@ -219,6 +245,8 @@ def gen_subscribe_opts(rng):
         o["details_arg"] = rng.choice(["details", "info"])
     if rng.random() < 0.25:
         o["get_retained"] = rng.choice([True, False])
+    if rng.random() < 0.07:
+        o["forward_for"] = FORWARD_FOR[:rng.randint(1, 2)]
     return o
 
 
@@ -239,6 +267,8 @@ def gen_register_opts(rng):
         o["details_arg"] = rng.choice(["details", "call_info"])
     if rng.random() < 0.2:
         o["force_reregister"] = rng.choice([True, False])
+    if rng.random() < 0.07:
+        o["forward_for"] = FORWARD_FOR[:rng.randint(1, 2)]
     return o
 
 
@@ -259,6 +289,7 @@ class Gen:
         self.reg_ids = set()
         self.inv_ids = set()
         self.nviol = 0
+        self.split_replies = False
 
     def label(self):
         self.n += 1
@@ -324,10 +355,21 @@ class Gen:
     def sendfail(self):
         rng = self.rng
         kind = rng.choice(["call", "publish", "publish"])
-        self.steps.append({"op": "sendfail", "kind": kind, "ack": rng.random() < 0.6, "where": rng.choice(["args", "kwargs"])})
+        where = rng.choice(["args", "kwargs"])
+        if self.cfg.get("rs_max_exp") and rng.random() < 0.5:
+            where = "oversize"
+            kind = rng.choice(["call", "publish", "subscribe", "register"])
+        self.steps.append({"op": "sendfail", "kind": kind, "ack": rng.random() < 0.6, "where": where})
+
+    def nested(self, kind=None):
+        """A request step that is NOT a step of its own: it rides on a reply/event/invoke step (``then``) and is issued from inside
+        the callback that step triggers."""
+        kind = kind or self.rng.choice(["call", "call", "publish", "publish_unack", "subscribe", "register"])
+        self.issue(kind)
+        return self.steps.pop()
 
     # -- replies
-    def reply(self, label=None, mode=None, shape=None):
+    def reply(self, label=None, mode=None, shape=None, then=None):
         rng = self.rng
         if label is None:
             label = rng.choice(sorted(self.pending))
@@ -355,6 +397,12 @@ class Gen:
             st["assigned"] = self.fresh_id(self.sub_ids)
         elif kind == "register":
             st["assigned"] = self.fresh_id(self.reg_ids)
+        if self.split_replies and rng.random() < 0.15:
+            st["cut"] = round(rng.random(), 3)
+        if then is not None:
+            st["then"] = self.nested(None if then is True else then)
+        elif self.split_replies and rng.random() < 0.1:
+            st["then"] = self.nested()
         self.steps.append(st)
         if mode != "progress":
             del self.pending[label]
@@ -365,17 +413,23 @@ class Gen:
                 self.live_regs.append(label)
         return st
 
-    def event(self, sub=None):
+    def event(self, sub=None, then=None):
         rng = self.rng
         sub = sub or rng.choice(self.live_subs)
         a, k = self.pay.request("ev%d" % sub, rng.choice(["none", "one", "many", "kw", "ev"]))
-        self.steps.append({"op": "event", "sub": sub, "args": a, "kwargs": k, "pubid": rng.choice([rng.randint(1, 20), rng.randint(1, 2 ** 53)])})
+        st = {"op": "event", "sub": sub, "args": a, "kwargs": k, "pubid": rng.choice([rng.randint(1, 20), rng.randint(1, 2 ** 53)])}
+        if then is not None or (self.split_replies and rng.random() < 0.12):
+            st["then"] = self.nested(None if then in (None, True) else then)
+        self.steps.append(st)
 
-    def invoke(self, reg=None):
+    def invoke(self, reg=None, then=None):
         rng = self.rng
         reg = reg or rng.choice(self.live_regs)
         a, k = self.pay.request("iv%d" % reg, rng.choice(["none", "one", "many", "kw", "ev"]))
-        self.steps.append({"op": "invoke", "reg": reg, "args": a, "kwargs": k, "invid": self.fresh_id(self.inv_ids)})
+        st = {"op": "invoke", "reg": reg, "args": a, "kwargs": k, "invid": self.fresh_id(self.inv_ids)}
+        if then is not None or (self.split_replies and rng.random() < 0.12):
+            st["then"] = self.nested(None if then in (None, True) else then)
+        self.steps.append(st)
 
     # -- violations
     def violate(self, cls=None):
@@ -390,7 +444,7 @@ class Gen:
         if cls == "unknown-id":
             kind = rng.choice(M.KINDS)
             variant = rng.choice(["ok", "error"] + (["progress"] if kind == "call" else []))
-            self.steps.append({"op": "violate", "cls": cls, "kind": kind, "variant": variant, "id": rng.choice(["next", "far", "max"]),
+            self.steps.append({"op": "violate", "cls": cls, "kind": kind, "variant": variant, "id": rng.choice(["next", "far", "max", "unack"]),
                                "salt": self.nviol})
         elif cls == "wrong-type":
             to = rng.choice(sorted(self.pending))
@@ -408,6 +462,7 @@ class Gen:
 
 def gen_history(rng):
     g = Gen(rng, cfg_random(rng))
+    g.split_replies = True
     nsteps = rng.randint(2, 30)
     burst = rng.random() < 0.3
     ending = rng.choice(["drain", "drain", "violate", "violate", "leave"])
@@ -497,7 +552,7 @@ def perm_case(mix_i, k, perm, perm_i, cfg):
 
 def perm_cases(tier):
     out = []
-    ks = [(3, range(6)), (4, range(6)), (5, range(4))] if tier == "quick" else [(3, range(6)), (4, range(6)), (5, range(6)), (6, range(4))]
+    ks = [(3, range(6)), (4, range(6)), (5, range(4)), (6, range(2))] if tier == "quick" else [(3, range(6)), (4, range(6)), (5, range(6)), (6, range(6))]
     ci = 0
     for k, mixes in ks:
         for mix_i in mixes:
@@ -512,7 +567,7 @@ def violation_cases():
     out = []
     for kind in M.KINDS:
         for variant in ["ok", "error"] + (["progress"] if kind == "call" else []):
-            for how in ("next", "far", "max"):
+            for how in ("next", "far", "max") + (("unack",) if kind == "publish" or variant == "error" else ()):
                 out.append({"cls": "unknown-id", "kind": kind, "variant": variant, "id": how})
     for pk in M.KINDS:
         for kind in M.KINDS:
@@ -535,8 +590,10 @@ def violation_case(spec, i, cfg):
     g.reply(s0, "ok")
     # background: a few outstanding requests of other kinds, so a mis-match has something to hit
     bg = [g.issue("call", opts={"on_progress": True}), g.issue("publish"), g.issue("subscribe"), g.issue("register")]
+    g.issue("publish_unack")
     if i % 2:
         bg.append(g.issue("call"))
+        g.issue("publish_unack")
 
     def issue_kind(k):
         if k == "unsubscribe":
@@ -573,6 +630,16 @@ def option_cases():
     for k, vals in (("timeout", [1, 30000]), ("on_progress", [True]), ("details", [True, False])):
         for v in vals:
             out.append(("call", {k: v}))
+    for k, vals in (("transaction_hash", ["0xabc", ""]), ("caller", [1, 2 ** 53]), ("caller_authid", ["alice"]), ("caller_authrole", ["user"]),
+                    ("forward_for", [FORWARD_FOR[:1], FORWARD_FOR])):
+        for v in vals:
+            out.append(("call", {k: v}))
+    out.append(("call", {"timeout": 7, "transaction_hash": "h", "caller": 9, "caller_authid": "a", "caller_authrole": "r", "forward_for": FORWARD_FOR,
+                         "on_progress": True}))
+    for kind in ("publish", "subscribe", "register"):
+        out.append((kind, dict({"forward_for": FORWARD_FOR}, **({"acknowledge": True} if kind == "publish" else {}))))
+    out.append(("publish", {"transaction_hash": "0xabc", "acknowledge": True}))
+    out.append(("publish", {"transaction_hash": "0xabc"}))
     out.append(("call", {"timeout": 5, "on_progress": True, "details": True}))
     out.append(("call", {}))
     for k in M.PUBLISH_FLAG_OPTS:
@@ -683,10 +750,68 @@ def sendfail_case(i, cfg):
     g.steps.append({"op": "sendfail", "kind": kind, "ack": ack, "where": where})
     c = g.issue("call", opts={"on_progress": True})
     g.steps.append({"op": "sendfail", "kind": kinds[(i + 1) % 3][0], "ack": kinds[(i + 1) % 3][1], "where": where})
+    if cfg["transport"] == "rawsocket":
+        # second failure class: the request exceeds the size the router announced (RawSocket handshake) -> send() raises after serialization
+        g.cfg = dict(cfg, rs_max_exp=RS_MAX_EXP)
+        okinds = [("call", False), ("publish", True), ("subscribe", False), ("publish", False), ("register", False)]
+        for j in range(2):
+            ok_, oack = okinds[(i // 2 + j) % len(okinds)]
+            g.steps.append({"op": "sendfail", "kind": ok_, "ack": oack, "where": "oversize"})
+            if j == 0:
+                g.issue("register")
     g.steps.append({"op": "sendfail", "kind": kind, "ack": ack, "where": "args"})
     d = g.issue("subscribe")
-    for l in (c, a, d, b):
+    for l in [c, a, d, b] + sorted(x for x in g.pending if x not in (a, b, c, d)):
         g.reply(l, "ok" if (l + i) % 3 else "error")
+    return g.case()
+
+
+# -- enumerated: requests issued from inside callbacks (while the session dispatches a router message) -----
+NESTED_SITES = ([("completion", k, m) for k in M.KINDS for m in ("ok", "error")] + [("progress", "call", "progress"), ("event", None, None),
+                                                                                    ("invocation", None, None)])
+NESTED_KINDS = ["call", "publish", "publish_unack", "subscribe", "register"]
+
+
+def nested_cases():
+    return [(site, nk) for site in NESTED_SITES for nk in NESTED_KINDS]
+
+
+def nested_case(spec, i, cfg):
+    (site, kind, mode), nk = spec
+    g = Gen(random.Random(17000 + i), cfg)
+    s0 = g.issue("subscribe", opts={"details": True} if i % 2 else None)
+    r0 = g.issue("register")
+    g.reply(s0, "ok")
+    g.reply(r0, "ok")
+    bg = [g.issue("call", opts={"on_progress": True}), g.issue("publish"), g.issue("register")]
+    before = set(g.pending)
+    if site == "completion":
+        if kind == "unsubscribe":
+            sx = g.issue("subscribe")
+            g.reply(sx, "ok")
+            to = g.issue("unsubscribe", of=sx)
+        elif kind == "unregister":
+            rx = g.issue("register")
+            g.reply(rx, "ok")
+            to = g.issue("unregister", of=rx)
+        else:
+            to = g.issue(kind, opts={"on_progress": True, "details": False}) if kind == "call" else g.issue(kind)
+        g.reply(to, mode, then=nk)
+    elif site == "progress":
+        to = g.issue("call", opts={"on_progress": True})
+        g.reply(to, "progress", "both", then=nk)
+        g.reply(to, "progress", "one", then="call")
+    elif site == "event":
+        g.event(s0, then=nk)
+    else:
+        g.invoke(r0, then=nk)
+    # everything outstanding (the nested request included) is answered newest first, with an EVENT and an INVOCATION in between
+    for j, l in enumerate(sorted(g.pending, reverse=True)):
+        g.reply(l, "error" if (l + i) % 3 == 0 else "ok")
+        if j == 0:
+            g.event(s0)
+        if j == 1:
+            g.invoke(r0)
     return g.case()
 
 
@@ -700,6 +825,8 @@ def enumerated(tier):
         items += [("opt", (i, j)) for i in range(len(option_cases()))]
     for j in range(1 if tier == "quick" else 4):
         items += [("prog", (i, j)) for i in range(len(progress_cases()))]
+    for j in range(2 if tier == "quick" else 8):
+        items += [("nested", (i, j)) for i in range(len(nested_cases()))]
     items += [("idwrap", (i,)) for i in range(40 if tier == "quick" else 200)]
     items += [("sendfail", (i,)) for i in range(48 if tier == "quick" else 240)]
     return items
@@ -720,6 +847,9 @@ def build(item):
     if fam == "prog":
         i, j = a
         return progress_case(progress_cases()[i], i, cfg_rot(i + j))
+    if fam == "nested":
+        i, j = a
+        return nested_case(nested_cases()[i], i + j, cfg_rot(i + 3 * j))
     if fam == "idwrap":
         return idwrap_case(a[0], cfg_rot(a[0]))
     if fam == "sendfail":
@@ -746,7 +876,7 @@ def run_shard(params, R):
         R.sample({"family": item[0], "fw": fw, "case": case}, kind=item[0], every=211)
     # random histories
     rng = random.Random((seed * 1000003 + part * 7919 + (0 if fw == "tx" else 104729)) & 0xFFFFFFFF)
-    n = 330 if tier == "quick" else 5000
+    n = 900 if tier == "quick" else 5000
     for i in range(n):
         case = gen_history(rng)
         M.execute(case, R, fw)
@@ -763,14 +893,17 @@ MANIFEST_ENTRY = {
     "text": ("A real joined ApplicationSession behind the real WAMP-over-WebSocket/RawSocket client transport (Twisted and asyncio; "
              "json/cbor/msgpack/ubjson) is driven by generated histories of call / (un)acknowledged publish / subscribe / unsubscribe / "
              "register / unregister while the harness, acting as router, answers a RANDOMLY chosen outstanding request with success, ERROR "
-             "or progressive RESULTs, interleaves EVENTs and INVOCATIONs, injects un-serializable payloads, and finally sends a reply that "
-             "matches no pending request (unknown id, right id/wrong type, duplicate). After every step a sequential model written from the "
-             "WAMP spec is compared with the boundary: exactly one request message with the next sequential id (1.., also across 2^53), the "
-             "given URI/args/kwargs and the option->wire table; every returned Deferred/Future completes exactly once, only by the reply "
-             "bearing its id and type, with that reply's content (value / CallResult / ApplicationError); progressive results reach only their "
-             "own on_progress; unmatched replies fail the transport (1002) and complete nothing; pending tables match the model at every step. "
-             "All k! reply orders for k<=5 (6 thorough) outstanding mixed requests are enumerated. Held = no deviation on the executions in the evidence."),
+             "or progressive RESULTs (also split over two reads), interleaves EVENTs and INVOCATIONs, lets completion callbacks, progress "
+             "handlers, event handlers and endpoints issue further requests while the session is still dispatching, injects un-serializable "
+             "and oversize payloads, and finally sends a reply that matches no pending request (unknown id, right id/wrong type, duplicate). "
+             "After every step a sequential model written from the WAMP spec is compared with the boundary: exactly one request message with "
+             "the next sequential id (1.., also across 2^53 by presetting the generator), the given URI/args/kwargs and the option->wire table; "
+             "every returned Deferred/Future completes exactly once, only by the reply bearing its id and type, with that reply's content "
+             "(value / CallResult / ApplicationError); progressive results reach only their own on_progress; unmatched replies fail the "
+             "transport (1002) and complete nothing; a failed send leaves no pending call/publish record; pending tables match the model at "
+             "every step. All k! reply orders for k<=6 outstanding mixed requests are enumerated. Held = no deviation on the executions in the evidence."),
     "note": ("trusts vf/c04_model.py (spec tables), vf/wamp_harness.py, the plain serializer libraries on the router side; pending-table sizes and "
-             "txaio.resolve/reject attempt counts are hooks; payload encryption, call cancellation, shared subscription ids and float timeouts are not driven"),
+             "txaio.resolve/reject attempt counts are hooks; payload encryption, call cancellation, shared subscription ids and float timeouts are not driven; "
+             "a subscribe/register record kept after a failed (oversize) send is observed, not judged"),
     "technique": "runtime monitoring: recorded API/wire/completion history checked online against a sequential request-reply model, exhaustive reply permutations + seeded adversarial histories",
 }
